@@ -471,6 +471,20 @@ func (g *Gen) DriveC01() {
 			}
 			runs = append(runs, r)
 		}
+		// transaction ids chosen by the caller: the same (long, structured) id in every run, or ids sharing a long prefix -
+		// the challenge of each run is fresh all the same
+		switch g.R.Intn(3) {
+		case 0:
+			shared := "gw7.example.net/2026-09-28/session-000042/attempt-0001/" + core.GenLongText(g.R)[:40]
+			for k := range runs {
+				runs[k].Params.TransID = shared
+			}
+		case 1:
+			prefix := strings.Repeat("0123456789abcdef", 5)
+			for k := range runs {
+				runs[k].Params.TransID = prefix + fmt.Sprintf("-%04d", k)
+			}
+		}
 		g.Emit("history/replay", SessionSpec{Dir: dir, Store0: g.Store0(g.R.Intn(3)), Runs: runs, Reuse: g.R.Intn(2) == 0})
 	}
 
